@@ -483,7 +483,14 @@ def consumer_traces(btapes, cfg, tid0, r):
     # ---- the same with a DSA key (FIPS 186-3 L = 1024, N = 160).  DsaKey._sign documents and enforces 2 <= k <= q-1
     st = random.Random(5)            # fixed: domain parameter generation is a search whose duration depends on the stream
     dsa = DSA.generate(1024, randfunc=lambda n: bytes(st.getrandbits(8) for _ in range(n)))
-    tid = sign_traces(traces, tid, dsa, SHA256.new(b"C18 message"), int(dsa.q), 2, "DSA-1024/160", "DSS-DSA nonce", "DSA blinding", "DsaKey._sign", btapes, cfg, r)
+    # the lower bound the consumer enforces is read off the consumer itself: 2 if DsaKey._sign refuses k = 1 (as pinned at
+    # 819d462b: "k is not between 2 and q-1"), 1 otherwise (since fix aa6d9ce2); the nonce generator must stay inside it
+    try:
+        dsa._sign(IntegerGMP(12345), IntegerGMP(1))
+        dsa_lo = 1
+    except ValueError:
+        dsa_lo = 2
+    tid = sign_traces(traces, tid, dsa, SHA256.new(b"C18 message"), int(dsa.q), dsa_lo, "DSA-1024/160", "DSS-DSA nonce", "DSA blinding", "DsaKey._sign", btapes, cfg, r)
     # ---- RSA private operation: blinding factor from Crypto.Random.new()
     stream = random.Random("%s/rsa" % os.environ.get("VERIF_SEED", "0"))
     key = RSA.generate(1024, randfunc=lambda n: bytes(stream.getrandbits(8) for _ in range(n)))
